@@ -20,6 +20,10 @@ from .common import run_child
 REPORT = C.VERIF / "lean" / ".lake" / "gen_kernels_report.json"
 
 
+PTYPES = ["sersic", "doublesersic", "sersic_exp", "sersic_pointsource", "pointsource", "exp", "dev"]
+PROGRAMS = {"generate_prior"}
+
+
 def _u(rng, lo, hi):
     return float(rng.uniform(lo, hi))
 
@@ -48,6 +52,13 @@ def gen_args(name, rng, i):
         H, W = int(rng.integers(3, 12)), int(rng.integers(3, 12))
         return dict(_H=H, _W=W, _i=int(rng.integers(0, H)), _j=int(rng.integers(0, W)), back=_u(rng, -3, 3),
                     x_sl=_u(rng, -0.2, 0.2), y_sl=_u(rng, -0.2, 0.2))
+    if name == "tilted_plane_sky_sample":
+        H, W = int(rng.integers(3, 12)), int(rng.integers(3, 12))
+        return dict(_H=H, _W=W, _i=int(rng.integers(0, H)), _j=int(rng.integers(0, W)), back=_u(rng, -3, 3),
+                    x_sl=_u(rng, -0.2, 0.2), y_sl=_u(rng, -0.2, 0.2), _suffix=["", "_a"][i % 2])
+    if name == "generate_prior":
+        return dict(profile_type=PTYPES[i % 7], flux_guess=_u(rng, 1, 5000), flux_guess_err=_u(rng, 0.5, 100), r_eff_guess=_u(rng, 0.6, 25),
+                    r_eff_guess_err=_u(rng, 0.3, 6), xc_guess=_u(rng, 0, 60), yc_guess=_u(rng, 0, 60))
     if name == "restrict_func":
         lo = _u(rng, -5, 5)
         return dict(x=_u(rng, -12, 12), hi=lo + _u(rng, 0.1, 10), low=lo)
@@ -92,6 +103,27 @@ def real_child(payload):
                 X, Y = jnp.meshgrid(jnp.arange(a["_W"], dtype=float), jnp.arange(a["_H"], dtype=float))
                 v = PR.render_tilted_plane_sky(X, Y, a["back"], a["x_sl"], a["y_sl"])
                 out.append([float(np.asarray(v)[a["_i"], a["_j"]])])
+            elif name == "tilted_plane_sky_sample":
+                import numpyro.handlers as H
+                import pysersic.priors as PR
+                sfx = a["_suffix"]
+                sky = PR.TiltedPlaneSkyPrior(0.0, 1.0, suffix=sfx)
+                X, Y = jnp.meshgrid(jnp.arange(a["_W"], dtype=float), jnp.arange(a["_H"], dtype=float))
+                vals = {"sky_back" + sfx: jnp.asarray(a["back"]), "sky_x_sl" + sfx: jnp.asarray(a["x_sl"]), "sky_y_sl" + sfx: jnp.asarray(a["y_sl"])}
+                v = H.substitute(H.seed(sky.sample, 0), data=vals)(X, Y)
+                out.append([float(np.asarray(v)[a["_i"], a["_j"]])])
+            elif name == "generate_prior":
+                import pysersic.priors as PR
+                from .c12 import describe
+                props = PR.SourceProperties(-99)
+                props.set_sky_guess(sky_guess=0.0, sky_guess_err=1.0)
+                for k, v in a.items():
+                    if k != "profile_type":
+                        if not hasattr(props, k) and k not in ("flux_guess", "flux_guess_err", "r_eff_guess", "r_eff_guess_err", "xc_guess", "yc_guess"):
+                            raise KeyError(k)
+                        setattr(props, k, v)
+                prior = props.generate_prior(a["profile_type"])
+                out.append([[k, describe(d)] for k, d in prior.dist_dict.items()])
             elif name == "restrict_func":
                 import pysersic.multiband as MB
                 out.append([float(MB.FitMultiBandPoly.restrict_func(None, jnp.asarray(a["x"]), a["hi"], a["low"]))])
@@ -117,12 +149,18 @@ def real_child(payload):
     return out
 
 
+def _num_eq(x, y):
+    if x is None or y is None:
+        return x is None and y is None
+    return abs(x - y) <= 2e-6 * max(abs(x), abs(y)) + 1e-12
+
+
 def lean_args(name, a, params):
     """the argument vector in the order of the translated definition's parameters"""
-    if name == "render_tilted_plane_sky":
+    if name in ("render_tilted_plane_sky", "tilted_plane_sky_sample"):
         a = dict(a, X=float(a["_j"]), Y=float(a["_i"]), X_shape0=float(a["_H"]), Y_shape0=float(a["_H"]))
     vec = []
-    for p in params:
+    for p in (params[1:] if name in PROGRAMS else params):
         v = a[p]
         vec += list(v) if isinstance(v, (tuple, list)) else [v]
     return [float(x) for x in vec]
@@ -151,12 +189,31 @@ def tie(ctx, names, per_kernel=None):
         except KeyError as e:
             uneval.append(dict(kernel=name, error=f"parameter {e} of the translated definition is not generated"))
             continue
-        lines.append("genk " + name + " " + " ".join(C.f2h(x) for x in vec))
+        if name in PROGRAMS:
+            lines.append(f"genprog {name} {a[kernels[name]['params'][0]]} " + " ".join(C.f2h(x) for x in vec))
+        else:
+            lines.append("genk " + name + " " + " ".join(C.f2h(x) for x in vec))
         keep.append((name, a, r))
     out = ctx.driver.ask(lines) if lines else []
     dis, by = [], {}
     for (name, a, r), o in zip(keep, out):
         st = by.setdefault(name, dict(evaluated=0, worst_rel=0.0))
+        if name in PROGRAMS:
+            # ordered list of (name, family, loc, scale, low, high); the real objects hold float32 parameters
+            from .c12 import parse_entries
+            try:
+                toks = [t for t in o.split(" ") if t]
+                m = [[t.split("|")[0], parse_entries(t)[t.split("|")[0]]] for t in toks]
+            except Exception:
+                dis.append(dict(kernel=name, args=a, real=r, model=o))
+                continue
+            st["evaluated"] += 1
+            same = len(m) == len(r) and all(
+                mk == rk and md["family"] == rd["family"] and all(_num_eq(md[f], rd[f]) for f in ("loc", "scale", "low", "high"))
+                for (mk, md), (rk, rd) in zip(m, r))
+            if not same:
+                dis.append(dict(kernel=name, args=a, real=r, model=m))
+            continue
         try:
             m = [C.h2f(t) for t in o.split()]
         except Exception:
@@ -197,6 +254,8 @@ MODULE = {
     "render_gaussian_fourier_term": "Proofs.GenK.GaussFourier",
     "render_pointsource_fourier": "Proofs.GenK.PointFourier",
     "render_tilted_plane_sky": "Proofs.GenK.TiltedPlane",
+    "tilted_plane_sky_sample": "Proofs.GenK.TiltedSample",
+    "generate_prior": "Proofs.GenK.GeneratePrior",
     "restrict_func": "Proofs.GenK.Restrict",
     "cash_loss_factor": "Proofs.GenK.Cash",
     "pseudo_huber_loss_factor": "Proofs.GenK.Huber",
@@ -208,6 +267,8 @@ THEOREMS = {
     "render_gaussian_fourier_term": [_NS + "gen_gauss_fourier_eq", _NS + "repo_gauss_fourier_reduce"],
     "render_pointsource_fourier": [_NS + "gen_point_fourier_eq"],
     "render_tilted_plane_sky": [_NS + "gen_tilted_plane_eq"],
+    "tilted_plane_sky_sample": [_NS + "gen_tilted_sample_eq"],
+    "generate_prior": [_NS + "gen_generate_prior_eq"],
     "restrict_func": [_NS + "gen_restrict_eq"],
     "cash_loss_factor": [_NS + "gen_cash_eq"],
     "pseudo_huber_loss_factor": [_NS + "gen_huber_eq"],
